@@ -191,15 +191,22 @@ def _judge(col, case, part, op, root, before, after, allowed, exc, features, rea
 
 
 def _fail(col, case, why, observed, sig):
-    """Failing cases are counted per class (sig) in the outcomes; one representative per class and work item is
-    handed to the runner (run() keeps the simplest one per class), because hostile alphabets make thousands of cases
-    fail for the same reason and the runner attributes at most 400 failure records."""
+    """Every failing case is counted (outcomes, n_failures). A case that a known finding explains is handed to the
+    runner as it is (the runner attributes and counts it). Of the unattributed ones only one representative per
+    class (sig) and work item is listed (run() keeps the simplest one per class): hostile alphabets make thousands
+    of cases fail for the same reason and the runner lists at most 400 unattributed failures."""
     col.outcome('FAIL:' + sig)
     col.count('failing_cases_total')
+    classifier = getattr(col, 'classifier', None)
+    if classifier is not None and classifier({'case': case, 'why': why, 'observed': observed, 'sig': sig}) is not None:
+        col.fail(case, why, observed, sig=sig)
+        return
     seen = col.__dict__.setdefault('_c18_seen', set())
     if sig not in seen:
         seen.add(sig)
         col.fail(case, why, observed, sig=sig)
+    else:
+        col.n_failures += 1       # counted as a failing case; its class already has a representative
 
 
 def _check_builder(real_members, data):
@@ -584,17 +591,15 @@ def _case_size(case):
 
 
 def _compress(ctx):
-    """Keep the simplest representative of every failure class (sig)."""
-    if ctx.n_failures > len(ctx.failures):
-        ctx.note('CAP: a batch produced more failure classes than the runner keeps (%d > %d)'
-                 % (ctx.n_failures, len(ctx.failures)))
+    """Keep the simplest representative of every class (sig) of unattributed failures; counts are not touched."""
     best = {}
     for f in ctx.failures:
         key = (_case_size(f['case']), canon(f['case']))
         if f['sig'] not in best or key < best[f['sig']][0]:
             best[f['sig']] = (key, f)
+    if len(ctx.failures) >= ctx.MAX_FAIL:
+        ctx.note('CAP: a batch produced more failure classes than the runner lists (%d)' % ctx.MAX_FAIL)
     ctx.failures = [best[k][1] for k in sorted(best)]
-    ctx.n_failures = len(ctx.failures)
 
 
 def _pmap_batched(ctx, fn, items, run_dir, first=8, later=48):
@@ -648,7 +653,7 @@ def _run(ctx, run_dir):
     ctx.sample({'part': 'S', 'archive': G.archive_by_index(2, 1234)})
     for f in ctx.failures:
         f['observed']['failing_cases_in_class'] = ctx.outcomes.get('FAIL:' + f['sig'], 0)
-    ctx.count('failure_classes', len(ctx.failures))
+    ctx.count('unattributed_failure_classes', len(ctx.failures))
 
 
 def replay(ctx, case):
